@@ -8,21 +8,23 @@
    What is proved (PARTIAL — see DESIGN.md): the statement above for the rewriter
    model (Rewrite.v: pass0, pass2, pass3 with rmRedundantReturn and the
    isTerminating / hasBreak checks) on every body made of atoms, Yield, blocks,
-   if / else-if / else chains, break / continue / return, for which the computable
-   side conditions [c01_hyps] hold: the body is in that fragment, its nesting depth
-   and that of the rewritten code are below the fuel of the model's termination
-   checker, and the output is legal Go in the sense of Strict.v (every generated
-   function literal returns a seq value on every path).  Missing: for / switch /
-   range in the proof (their rewriting is covered by the structural and behavioural
-   correspondence and by the differential check), the optimiser, and legality of
-   the output as a theorem rather than a checked condition.
+   if / else-if / else chains, switch (tag, tag-less), for loops (init / post
+   statements atoms or yields), break / continue / return, for which the computable
+   side conditions [c01_hyps] hold: the body is in that fragment (Side.supp: the two
+   excluded shapes are the recorded findings F1 and F2), its nesting depth and that
+   of the rewritten code are below the fuel of the model's termination checker, and
+   the output is legal Go in the sense of Strict.v.  Missing: the optimiser (C07),
+   range / YieldFrom as syntax (their lowering is proved in Delegate.v / RangeLoop.v
+   and validated by the structural correspondence), and legality of the output as a
+   theorem rather than a checked condition (its main part, termination of every
+   generated function literal, is C11_output_literals_terminate_partial).
 
    The semantics quantifies over the denotations of user code (atoms, conditions,
    tags, yielded expressions: arbitrary state transformers that may panic) and over
    the consumer [env] (which may stop after any value), so the theorem covers every
    interleaving of consumer and generator, every stop point and every panic point. *)
 From Coq Require Import List.
-From Verif Require Import Base Syntax Sem Rewrite Side RwBase Rel TermSound RwCorrect Strict C01Main.
+From Verif Require Import Base Syntax Sem Rewrite Side RwBase Rel TermSound RwCorrect Strict C01Main Link LinkMachine.
 Import ListNotations.
 
 Theorem C01_compiled_equals_source_partial :
@@ -56,6 +58,46 @@ Proof.
   - exists m. exact Hm.
 Qed.
 Print Assumptions C01_pass2_simulation_partial.
+
+(* END TO END, down to the machine model of seq/seq.go.  [machine_target … K out u N F] is the
+   consumer's loop — MoveNext; Current; hand the value to the consumer; go on unless it stops — written
+   with the methods of the generator object that SeqMachine.v models after seq.go (heap of co cells,
+   continuations as closures, the trampoline of For), started on Start(Delay(func() Seq { out }));
+   N is the fuel of one advance, F the number of advances.  For every body inside the theorem's side
+   conditions whose model output contains no native Yield statement (computable: forallb (lk KS) out,
+   evaluated on every generated program, code 4 of hyp_code), every outcome of the source coroutine is
+   the outcome of that loop, for all large enough N and F.  Composition of the compiler theorem above,
+   Link.v (the big-step reading of seq values used by the compiler proof is an execution of the
+   reference interpreter of the runtime layer) and the refinement of Props_C08.v / Protocol.v (the
+   machine refines the reference interpreter). *)
+Theorem C01_end_to_end_machine_partial :
+  forall (U V P : Type)
+         (aden : nat -> U -> outcome U P unit) (cden : nat -> U -> outcome U P bool)
+         (tden : nat -> U -> outcome U P nat) (kval : nat -> nat) (yden : nat -> U -> outcome U P V)
+         (env : nat -> V -> U -> U * bool) (zeroV : V)
+         (body : list stmt),
+    c01_hyps body = true ->
+    exists out, rewrite body = OK out /\
+      (forallb (lk KS) out = true ->
+       forall n u f,
+         run_source aden cden tden kval yden env n body u = Some f -> f <> FStuck ->
+         exists M, forall N F, M <= N -> M <= F ->
+           machine_target U V P aden cden tden kval yden env zeroV KS out u N F = Some f).
+Proof.
+  intros U V P aden cden tden kval yden env zeroV body Hh.
+  destruct (compiler_correct_hyps U V P aden cden tden kval yden env body Hh) as [out [Ho Hsim]].
+  exists out. split; [exact Ho|]. intros Hlk n u f Hs Hns.
+  destruct (Hsim n u f Hs Hns) as [m Hm].
+  exact (machine_link U V P aden cden tden kval yden env zeroV KS out m u f Hlk Hm Hns).
+Qed.
+Print Assumptions C01_end_to_end_machine_partial.
+
+Example C01_end_to_end_hyps_hold :
+  match rewrite [SFor (Some (SAtom 1)) (Some 2) (Some (SAtom 3)) [SYield 4; SIf None 5 [SBreak] ENone; SAtom 6]; SYield 7; SReturn] with
+  | OK out => forallb (lk KS) out
+  | Err _ => false
+  end = true.
+Proof. vm_compute. reflexivity. Qed.
 
 (* non-vacuity: bodies with yields under if / else-if chains, early return, and a
    break replaced by a signal satisfy the side conditions *)
